@@ -523,7 +523,7 @@ def run(ctx):
     covered: set = set()
     layouts = ('scalar', '1d', 'bcast', 'perpixel')
     dtypes = (('float64', 'float64'), ('float32', 'float32'), ('float64', 'float32'), ('float32', 'float64'))
-    ndraw = 8 if ctx.thorough else 2
+    ndraw = 24 if ctx.thorough else 3
     stats = {'ok': 0, 'skipped': 0, 'truncated': 0, 'incomplete': 0}
     sigs = sorted(spec.walks)
     for sig in sigs:
